@@ -58,15 +58,17 @@ def sig_of(case: dict[str, Any], verdict: str) -> dict[str, Any]:
     m, s = case["model"], case["scan"]
     behs = set(m.get("beh", {}).values()) | ({m["default"]} if "default" in m else set())
     host = s["host"]
+    def rat_class(r: int) -> str:   # ISO 13400-2 table "routing activation request activation types"
+        return "iso-named" if r in (0x00, 0x01, 0xE0) else "iso-reserved" if r < 0xE0 else "oem-specific"
+
     sig: dict[str, Any] = {
-        "family": case["family"],
+        "phase": "routing-activation" if case["family"].startswith("ra") else
+                 "uri" if verdict.startswith("TA6") else "sweep",
         "reconnect_in_play": bool(behs & RECONNECT_BEH) or bool(m.get("close_after")),
         "unexpected_answer_in_play": bool(behs & ODD_BEH) or bool(set(m.get("unsol", {}).values()) & ODD_UNSOL),
         "host": "ipv6" if ":" in host else ("ipv4" if host.replace(".", "").isdigit() else "name"),
+        "accepted_activation_types": sorted({rat_class(int(p[0])) for p in m.get("acc", [])}),
     }
-    if case["family"].startswith("ra"):
-        sig["given"] = ("rat" if s["rat"] is not None else "") + ("src" if s["src"] is not None else "")
-        sig["order"] = m.get("order")
     return sig
 
 
@@ -137,11 +139,29 @@ def single_verdict(t: dict[str, Any]) -> str:
     return str(v[0][2])
 
 
-def model_check(rep: Report, tier: str) -> None:
-    runs = [("sweep2", True), ("ra", True), ("sweep3", False)] + ([("sweep4", False)] if tier == "thorough" else [])
+NEG_CONTROLS = (("devS1", "Inv_TA4_FoundComplete"), ("devS2", "Inv_TA4_FoundComplete"),
+                ("devS3", "Inv_TA3_ValidSound"), ("devS4", "Inv_RA2_Complete"))
+
+
+def start_tlc_jobs(tier: str, pool: ThreadPoolExecutor) -> dict[str, Any]:
+    """All TLC runs on the design layer are independent of each other and of the executions: run them concurrently."""
+    mc = [("sweep2", True), ("ra", True), ("sweep3", False)] + ([("sweep4", False)] if tier == "thorough" else [])
+    exports = ["export2", "export3small" if tier == "quick" else "export3", "exportra"]
+    jobs: dict[str, Any] = {}
+    for c, cov in mc:
+        jobs[c] = pool.submit(tlc.run_tlc, "MC_DoipDiscover", f"MC_DoipDiscover_{c}.cfg", timeout=3000, coverage=cov,
+                              workers=4)
+    for c, _inv in NEG_CONTROLS:
+        jobs[c] = pool.submit(tlc.run_tlc, "MC_DoipDiscover", f"MC_DoipDiscover_{c}.cfg", timeout=900, workers=1)
+    for c in exports:
+        jobs[c] = pool.submit(tlc.run_tlc, "MC_DoipDiscover", f"MC_DoipDiscover_{c}.cfg", timeout=1800, workers=1)
+    return {"jobs": jobs, "mc": mc, "exports": exports}
+
+
+def model_check(rep: Report, tj: dict[str, Any]) -> None:
     never: dict[str, bool] = {}
-    for c, cov in runs:
-        res = tlc.run_tlc("MC_DoipDiscover", f"MC_DoipDiscover_{c}.cfg", timeout=3000, coverage=cov)
+    for c, _cov in tj["mc"]:
+        res = tj["jobs"][c].result()
         rep.add_tlc(res, f"MC_DoipDiscover_{c}")
         if not res.ok:
             rep.violate(f"design/{res.violated}", {"where": "DoipDiscover design layer", "cfg": c}, {"cex": res.cex[-12:]})
@@ -149,11 +169,10 @@ def model_check(rep: Report, tier: str) -> None:
             never[a] = never.get(a, True) and n == 0
     nv = sorted(a for a, z in never.items() if z)
     rep.extra["design_actions_never_taken"] = nv
-    if nv:
-        raise Machinery(f"DoipDiscover: actions never taken: {nv}")
-    for c, inv in (("devS1", "Inv_TA4_FoundComplete"), ("devS2", "Inv_TA4_FoundComplete"),
-                   ("devS3", "Inv_TA3_ValidSound"), ("devS4", "Inv_RA2_Complete")):
-        res = tlc.run_tlc("MC_DoipDiscover", f"MC_DoipDiscover_{c}.cfg", timeout=900)
+    if nv or not never:
+        raise Machinery(f"DoipDiscover: coverage missing or actions never taken: {nv}")
+    for c, inv in NEG_CONTROLS:
+        res = tj["jobs"][c].result()
         rep.add_tlc(res, f"MC_DoipDiscover_{c} (negative control)")
         if res.violated != inv:
             raise Machinery(f"negative control {c} did not violate {inv} (got {res.violated})")
@@ -163,12 +182,12 @@ def pyset(v: Any) -> list[Any]:
     return list(v["$set"]) if isinstance(v, dict) and "$set" in v else list(v)
 
 
-def spec_to_code(rep: Report, cases: Cases, tier: str, rnd: random.Random) -> None:
+def spec_to_code(rep: Report, cases: Cases, tier: str, rnd: random.Random, tj: dict[str, Any]) -> None:
     """Behaviour assignments / gateway models enumerated by TLC for the design layer, replayed into the real scanner."""
     # ---- sweep machine
     want: dict[tuple[str, ...], set[Any]] = {}
-    for cfg in (["export2", "export3core"] if tier == "quick" else ["export2", "export3"]):
-        res = tlc.run_tlc("MC_DoipDiscover", f"MC_DoipDiscover_{cfg}.cfg", timeout=1800, workers=1)
+    for cfg in tj["exports"][:2]:
+        res = tj["jobs"][cfg].result()
         rep.add_tlc(res, f"MC_DoipDiscover_{cfg} (case export)")
         for p in res.prints:
             if isinstance(p, list) and len(p) == 6 and p[0] == "C":
@@ -188,7 +207,7 @@ def spec_to_code(rep: Report, cases: Cases, tier: str, rnd: random.Random) -> No
     rep.extra["spec_to_code_sweep_replayed"] = nrep
     rep.extra["spec_to_code_sweep_drift"] = ndrift
     # ---- routing activation machine
-    res = tlc.run_tlc("MC_DoipDiscover", "MC_DoipDiscover_exportra.cfg", timeout=1800, workers=1)
+    res = tj["jobs"]["exportra"].result()
     rep.add_tlc(res, "MC_DoipDiscover_exportra (case export)")
     smap = {5: TESTER, 6: 0x0E80, -1: None}
     ra_cases = []
@@ -201,7 +220,7 @@ def spec_to_code(rep: Report, cases: Cases, tier: str, rnd: random.Random) -> No
     rnd.shuffle(enum_rat)
     rnd.shuffle(enum_src)
     rnd.shuffle(both)
-    pick = both[: 400 if tier == "quick" else len(both)] + enum_rat[: 60 if tier == "quick" else len(enum_rat)] + \
+    pick = both[: 150 if tier == "quick" else len(both)] + enum_rat[: 30 if tier == "quick" else len(enum_rat)] + \
         (enum_src[:2] if tier == "thorough" else [])
     nrep = ndrift = 0
     for g, given, reported, stage in pick:
@@ -213,7 +232,7 @@ def spec_to_code(rep: Report, cases: Cases, tier: str, rnd: random.Random) -> No
         nrep += 1
         got = sorted({(x["rat"], x["src"]) for x in c["res"]["rep"]["ra"]})
         wantp = sorted((r, smap[s]) for r, s in reported)
-        wdone = "ok" if stage == "sweep" else "exit20"
+        wdone = "ok" if stage == "sweep" else "stopped"
         if got != wantp or c["res"]["done"] != wdone:
             ndrift += 1
             rep.drift.append({"machine": "ra", "gw": model, "given": given, "design": [wantp, wdone],
@@ -225,11 +244,11 @@ def spec_to_code(rep: Report, cases: Cases, tier: str, rnd: random.Random) -> No
 def enumerate_families(cases: Cases, tier: str, rnd: random.Random) -> None:
     # ---- exhaustive: every assignment of the extra behaviours (not in the design's alphabet) mixed with the core ones
     pool = ["pos", "unknown", "silent"] + BEH_EXTRA
-    for beh in itertools.product(pool, repeat=3):
+    for beh in itertools.product(pool, repeat=3 if tier == "thorough" else 2):
         if set(beh) & set(BEH_EXTRA):
-            cases.add("sweep-extra", beh_model(beh), scan_of(1, 3))
+            cases.add("sweep-extra", beh_model(beh), scan_of(1, len(beh)))
     # ---- the gateway closes every connection after its k-th request
-    kpool = ["pos", "neg", "unknown", "unreach", "ackonly", "pos1500"]
+    kpool = ["pos", "neg", "unknown", "unreach", "ackonly", "pos1500"] if tier == "thorough" else ["pos", "unknown", "ackonly", "pos1500"]
     for k in (1, 2, 3):
         for beh in itertools.product(kpool, repeat=4 if tier == "thorough" else 3):
             cases.add("sweep-close-after-k", beh_model(beh, close_after=k), scan_of(1, len(beh)))
@@ -255,7 +274,7 @@ def enumerate_families(cases: Cases, tier: str, rnd: random.Random) -> None:
                  "beh": {str(a): "pos", str(a + 1): "unreach", str(b): "neg"}}
             cases.add("uri", m, scan_of(a, b, src=src, rat=rat, port=port, delay=0.25))
     # ---- routing activation enumeration through main(): activation types enumerated over 0..255
-    rat_pool = [0x00, 0x01, 0xE0, 0xFF] if tier == "thorough" else [0x00, 0x01, 0xE0]
+    rat_pool = [0x00, 0x01, 0xE0, 0xE5] if tier == "thorough" else [0x00, 0x01, 0xE5]   # 0xE5: OEM specific
     for order in ("src", "rat"):
         for k in range(len(rat_pool) + 1):
             for rats in itertools.combinations(rat_pool, k):
@@ -290,10 +309,18 @@ def unspecified_probe(rep: Report) -> None:
 
 
 def self_test(rep: Report, cases: list[dict[str, Any]], verdicts: dict[int, str]) -> None:
-    good = next((c for i, c in enumerate(cases) if verdicts[i] == "ok" and c["res"]["rep"]["resp"]
-                 and c["res"]["rep"]["valid"] and c["family"].startswith("sweep")), None)
+    def plain(c: dict[str, Any]) -> bool:
+        m = c["model"]
+        behs = list(m.get("beh", {}).values())
+        return (c["family"].startswith("sweep") and "pos" in behs and set(behs) <= {"pos", "neg", "unknown", "unreach"}
+                and not m.get("unsol") and not m.get("close_after") and behs[0] == "pos")
+
+    good = next((c for i, c in enumerate(cases) if verdicts[i] == "ok" and plain(c)), None)
     if good is None:
-        raise Machinery("binding self-test: no accepted sweep execution with a found address")
+        if rep.violations:      # nothing accepted to corrupt: the violations themselves are the result of this run
+            rep.extra["self_test"] = "skipped: no accepted plain sweep execution (violations reported)"
+            return
+        raise Machinery("binding self-test: no accepted plain sweep execution")
     base = to_trace(good["res"])
     probes = []
     t = json.loads(json.dumps(base))
@@ -345,11 +372,13 @@ def run(tier: str, seed: int) -> Report:
         "db handler replaced by a recorder (insert_discovery_result calls = results reported to the database)",
     ]
     rnd = random.Random(seed)
-    model_check(rep, tier)
     cases = Cases()
-    spec_to_code(rep, cases, tier, rnd)
-    enumerate_families(cases, tier, rnd)
-    unspecified_probe(rep)
+    with ThreadPoolExecutor(max_workers=6) as pool:
+        tj = start_tlc_jobs(tier, pool)
+        enumerate_families(cases, tier, rnd)
+        unspecified_probe(rep)
+        spec_to_code(rep, cases, tier, rnd, tj)
+        model_check(rep, tj)
     items = cases.items
     verdicts = validate(items, rep)
     rep.traces = rep.evaluations = len(items)
